@@ -171,6 +171,9 @@ pub fn run_case(voc: &concretise::Vocab, case: &Value, dump: Option<&str>) -> Ve
                                    "same": d2 == base, "base_read": g.read_outcome}).to_string());
             }
         }
+        "sink" => {
+            events.extend(crate::sink::run_case(&files, &start, case));
+        }
         "facets" => {
             let r = catch_unwind(AssertUnwindSafe(|| crate::facets::run(case)));
             match r {
